@@ -268,6 +268,16 @@ S["ents_split_delays"] = dict(
 S["ents_split_delays_rev"] = dict(
     until=3, sims=[T("A", ents=2), T("B", ents=2)],
     conns=[CE("A", "f", "B", "f", "po", "mi", shift=1, init=True), CE("A", "e", "B", "e", "po", "mi")])
+# two entities of one source feed two consumers over connections with DIFFERENT time shifts, each
+# with its own initial data (the initial data of both live in the source's output cache)
+S["ents_two_shifts_init"] = dict(
+    until=5, sims=[T("A", ents=2), T("B"), T("Cc")],
+    conns=[CE("A", "e", "B", "e", "po", "mi", shift=1, init=True),
+           CE("A", "f", "Cc", "e", "po", "mi", shift=3, init=True)])
+S["ents_two_shifts_init_rev"] = dict(
+    until=5, sims=[T("A", ents=2), T("B"), T("Cc")],
+    conns=[CE("A", "f", "Cc", "e", "po", "mi", shift=3, init=True),
+           CE("A", "e", "B", "e", "po", "mi", shift=1, init=True)])
 # crossed pairs; one triggering, one not; fan-in of both source entities into one attribute
 S["ents_cross"] = dict(
     until=3, sims=[H("A", ents=2, next_default=2, emit=[0, None, 0]), H("B", ents=2, next=[None])],
